@@ -305,7 +305,46 @@ class Assembler:
 
     def process(self, tpl_path):
         self._process(tpl_path)
+        self._auto_consts(tpl_path)
         return self.out
+
+    def _auto_consts(self, tpl_path):
+        """Rule D31: a top-level `const NAME: <scalar or &str> = <literal>;` of a source file, referenced by a function
+        extracted from that file and not defined anywhere in the assembled text, is extracted with it (verbatim)."""
+        text = "\n".join(l for l, _ in self.out.pairs)
+        defined = set(re.findall(r"\b(?:const|static)\s+([A-Z][A-Z0-9_]+)\b", text))
+        want = {}
+        for l, o in self.out.pairs:
+            if o[0] != "src":
+                continue
+            for name in re.findall(r"(?<![A-Za-z0-9_:.])([A-Z][A-Z0-9_]{2,})\b(?!\s*[:(!{])", rustscan.mask(l)):
+                if name not in defined:
+                    want.setdefault(name, o[1])
+        add = []
+        for name, rel in sorted(want.items()):
+            try:
+                s = self.src(rel)
+                it = s.find(["const " + name])
+            except (ScanError, AssembleError):
+                continue
+            item = s.slice(it.start, it.end)
+            if not re.search(r":\s*(usize|u8|u16|u32|u64|u128|isize|i8|i16|i32|i64|bool|char|&(?:'static\s+)?str)\s*=", item):
+                continue
+            lines = Lines.from_source(item, rel, s.line(it.start))
+            log = []
+            rule_D4(lines, log)
+            t = lines.text()
+            for mm in reversed(list(re.finditer(r"&(?!\s*')", t.split("=")[0]))):
+                lines.replace_span(mm.start(), mm.end(), "&'static ")
+            log.append({"rule": "D31", "before": "(const %s referenced by an extracted function)" % name, "after": " ".join(item.split())[:120]})
+            self._log(log, rel, it)
+            self.items.append({"item": it.header[:80], "file": rel, "lines": [s.line(it.start), s.line(it.end)], "sha256_16": sha(item)})
+            add.extend(lines.pairs)
+        if add:
+            for k in range(len(self.out.pairs) - 1, -1, -1):
+                if self.out.pairs[k][0].strip().startswith("} // verus!"):
+                    self.out.pairs[k:k] = add
+                    break
 
     def _tpl(self, text, path, n, label=None):
         return (text, ("tpl", os.path.relpath(path, self.verif), n, label))
@@ -539,7 +578,8 @@ class Assembler:
 
     # -- statement range
     def _range(self, blk, tpl_path):
-        mm = re.match(r"(.*?)\s+from\s+/(.*?)/\s+to\s+/(.*?)/\s*(inclusive)?\s*$", blk.arg)
+        excl = re.search(r"\s+from\s+after\s+/", blk.arg) is not None   # `from after /re/`: the range starts on the NEXT line
+        mm = re.match(r"(.*?)\s+from\s+(?:after\s+)?/(.*?)/\s+to\s+/(.*?)/\s*(inclusive)?\s*$", blk.arg)
         if not mm:
             raise AssembleError("bad range directive: %r" % blk.arg)
         rel, s, it = self.locate(mm.group(1))
@@ -551,7 +591,7 @@ class Assembler:
         a_hits = [i for i, l in enumerate(blines) if re.search(mm.group(2), l)]
         if len(a_hits) != 1:
             raise AssembleError("lost anchor: range start /%s/ matched %d lines in %s" % (mm.group(2), len(a_hits), mm.group(1)))
-        a = a_hits[0]
+        a = a_hits[0] + (1 if excl else 0)
         b_hits = [i for i, l in enumerate(blines) if i >= a and re.search(mm.group(3), l)]
         if not b_hits:
             raise AssembleError("lost anchor: range end /%s/ not found after start in %s" % (mm.group(3), mm.group(1)))
